@@ -15,6 +15,15 @@ Goal forall uc attrs,
                      end) attrs.
 Proof. exact Props.C15.C15_front_raw_doc_strings. Qed.
 Print Assumptions Props.C15.C15_front_raw_doc_strings.
+Goal forall uc attrs,
+  parse_comment_attrs uc attrs =
+  map (c15_carried uc)
+      (flat_map (fun a => match a_meta a with
+                          | MNV p (VStr s) => if path_is_ident p (lit "doc") then [s] else []
+                          | _ => []
+                          end) attrs).
+Proof. exact Props.C15.C15_front_carried. Qed.
+Print Assumptions Props.C15.C15_front_carried.
 Goal forall indent docs,
   text_of (ts_tmpl indent docs) = ts_comments indent docs /\ docs_of (ts_tmpl indent docs) = docs.
 Proof. exact Props.C15.C15_fragment_ts. Qed.
